@@ -28,17 +28,32 @@ func VH_C11_MagicDetect() {
 
 // H11.magic.pe: the DOS stub's pointer to the PE header is untrusted.
 func VH_C11_MagicDetectPE() {
-	n := 0x50
+	// a short stub, and a file longer than the sniffing buffer (bufio's 4096:
+	// Peek beyond it returns the full buffer AND an error)
+	n := []int{0x50, 4096 + 0x50}[vhConcretize(vhInt("file-size", 0, 1), 2)]
 	vhMaxLen(0x10000 + 8)
+	vhLoopBound(3 * 4200)
 	b := make([]byte, n)
 	b[0], b[1] = 'M', 'Z'
 	lo, hi := vhU8("lfanew-lo"), vhU8("lfanew-hi")
 	b[0x3c], b[0x3d] = lo, hi
-	at := vhConcretize(vhInt("sig-at", 0x40, n-4), 0x60)
+	at := vhConcretize(vhInt("sig-at", 0x40, 0x50-4), 0x60)
+	if n > 4096 && vhBool("signature-near-the-buffer-end") {
+		at = 4096 - vhConcretize(vhInt("sig-before-buffer-end", 0, 8), 9)
+	}
 	sig := vhBytes("sig", 4)
 	copy(b[at:], sig)
-	t := Detect(bytes.NewReader(b))
 	reloc := int(lo) | int(hi)<<8
+	if n > 4096 {
+		// around the stub and around the end of the sniffing buffer; the
+		// 4000 offsets in between behave like the first group
+		vhAssume(reloc < 0x60 || (reloc >= 4096-16 && reloc < 4096+16) || reloc >= 0xfff0)
+	}
+	t := Detect(bytes.NewReader(b))
+	if reloc+4 > 4096 {
+		vhReach("beyond-the-sniffing-buffer") // classification not claimed there, only: no panic
+		return
+	}
 	isPE := reloc+4 <= n && b[reloc] == 'P' && b[reloc+1] == 'E' && b[reloc+2] == 0 && b[reloc+3] == 0
 	if isPE {
 		vhAssert(t == FileTypePECOFF, "pe-signature-at-e_lfanew-recognised")
